@@ -1,9 +1,79 @@
 import WzVerif.Driver.Proto
+import WzVerif.Model.Debugger
 namespace Wz.Driver.C20
-open Wz Wz.Proto
+open Wz Wz.Proto Wz.Dbg
 
-/-- stub: no model commands yet -/
+/-- comma separated hex strings, `[]` = empty list -/
+def strList (s : String) : Option (List (List Char)) :=
+  if s == "[]" then some [] else (s.splitOn ",").mapM unhexStr
+
+/-- `in:out,in:!,...` — the answers of CPython's idna codec for the strings of this case -/
+def idnaTable (s : String) : Option (List (List Char × Option (List Char))) :=
+  if s == "[]" then some [] else
+  (s.splitOn ",").mapM fun p =>
+    match p.splitOn ":" with
+    | [a, b] =>
+      match unhexStr a with
+      | some a => if b == "!" then some (a, none) else (unhexStr b).map fun b => (a, some b)
+      | none => none
+    | _ => none
+
+def idnaOf (tbl : List (List Char × Option (List Char))) : Idna := fun s =>
+  match tbl.find? (fun p => p.1 == s) with
+  | some (_, some r) => .ok r
+  | some (_, none) => .error "UnicodeError"
+  | none => .error "MISSING-IDNA"
+
+def attempts (s : String) : Option (List Attempt) :=
+  if s == "-" then some [] else
+  s.toList.mapM fun c =>
+    if c == 'r' then some Attempt.right else if c == 'w' then some .wrong
+    else if c == 's' then some .stale else none
+
+def showPin (r : PinResult) : Char :=
+  if r.auth then 'a' else if r.exhausted then 'x' else 'f'
+
+def cmdArg : String → Option Cmd
+  | "none" => some .none | "resource" => some .resource | "pinauth" => some .pinauth
+  | "printpin" => some .printpin | "other" => some .other | _ => none
+
+def secretArg : String → Option Secret
+  | "right" => some .right | "wrong" => some .wrong | "absent" => some .absent | _ => none
+
+def cookieArg : String → Option Cookie
+  | "valid" => some .valid | "expired" => some .expired | "wronghash" => some .wrongHash
+  | "malformed" => some .malformed | "absent" => some .absent | _ => none
+
 def handle : Handler
+  | "host.trusted", [host, trusted, tbl] =>
+    match optArg unhexStr host, strList trusted, idnaTable tbl with
+    | some host, some trusted, some tbl => some (outBool (hostIsTrusted (idnaOf tbl) host trusted))
+    | _, _, _ => some badArgs
+  | "host.get", [scheme, host, sname, sport, trusted, tbl] =>
+    match unhexStr scheme, optArg unhexStr host, optArg unhexStr sname, optArg natArg sport,
+        optArg strList trusted, idnaTable tbl with
+    | some scheme, some host, some sname, some sport, some trusted, some tbl =>
+      let server := sname.map fun n => (n, sport)
+      some (match getHost (idnaOf tbl) scheme host server trusted with
+        | .ok h => hexStr h
+        | .error e => "EXC:" ++ e)
+    | _, _, _, _, _, _ => some badArgs
+  | "pin.history", [start, h] =>
+    match natArg start, attempts h with
+    | some start, some h =>
+      let (rs, f) := runHistory failPinAuth (UInt8.ofNat start) h
+      some (String.ofList (rs.map showPin) ++ "|" ++ toString f.toNat)
+    | _, _ => some badArgs
+  | "dbg.dispatch", [evalex, pinOn, failed, dbg, cmd, hasArg, secret, frame, hostOk, cookie, pinRight, atConsole] =>
+    match boolArg evalex, boolArg pinOn, natArg failed, boolArg dbg, cmdArg cmd, boolArg hasArg, secretArg secret,
+        boolArg frame, boolArg hostOk, cookieArg cookie, boolArg pinRight, boolArg atConsole with
+    | some evalex, some pinOn, some failed, some dbg, some cmd, some hasArg, some secret, some frame, some hostOk,
+        some cookie, some pinRight, some atConsole =>
+      let (o, f) := dispatch { evalex := evalex, pinOn := pinOn } (UInt8.ofNat failed)
+        { debugger := dbg, cmd := cmd, hasArg := hasArg, secret := secret, frameKnown := frame,
+          hostTrusted := hostOk, cookie := cookie, pinRight := pinRight, atConsole := atConsole }
+      some (toString (outcomeCode o) ++ "|" ++ toString f.toNat)
+    | _, _, _, _, _, _, _, _, _, _, _, _ => some badArgs
   | _, _ => none
 
 end Wz.Driver.C20
